@@ -5,6 +5,7 @@ import itertools
 from .. import env
 
 PROPERTY = "C17"
+CROSS_CHECK = True      # thorough: dumped assertion queries are re-decided by z3 4.8.12 and cvc5 1.0
 LEVEL = "model_checking"
 STUBS = ["array -> SymArray('i')", "hash vectors symbolic (keys collide in any pattern)"]
 ASSUMPTIONS = [
